@@ -342,6 +342,8 @@ def _leaf() -> t.Any:
         st.tuples(st.just("bool"), st.booleans()),
         st.tuples(st.just("oct"), gens.small_octets(12)),
         st.tuples(st.just("coct"), st.integers(0, 40), gens.small_octets(6)),
+        # a large value (the enclosing sequences then need 3 length octets; writers sometimes switch strategy at 64 KiB)
+        st.tuples(st.just("oct"), st.sampled_from([255, 256, 65535, 65536, 70000]).map(lambda n: b"\x5a" * n)),
     )
 
 
